@@ -28,3 +28,5 @@ Definition ref_run (fl : list (nat * exn)) (sub : list (exn * exn)) (fuel : nat)
   let nv := length vals in
   let '(r, s1, t1) := heval (fault_of fl) (issub_of sub) fuel e (store_of vals) [] in
   show_hres r ++ " | " ++ show_trace t1 ++ " | " ++ show_store nv s1.
+
+Definition model_renames (e : hexpr) : string := if renames e then "true" else "false".
